@@ -430,4 +430,56 @@ theorem foldl_applyRegion_into (F0 : Cache) (l : List Region) :
     · simpa using hx
 
 
+/-! ### several changes in one message -/
+
+theorem decodeAux_append (h : Bool) (ms1 : List Meta) :
+    ∀ (ss1 : List Stat) (ls1 : List Peer) (ms2 : List Meta) (ss2 : List Stat) (ls2 : List Peer),
+      ss1.length = ms1.length → ls1.length = ms1.length →
+      decodeAux h (ms1 ++ ms2) (ss1 ++ ss2) (ls1 ++ ls2) = decodeAux h ms1 ss1 ls1 ++ decodeAux h ms2 ss2 ls2 := by
+  induction ms1 with
+  | nil =>
+    intro ss1 ls1 ms2 ss2 ls2 h1 h2
+    have : ss1 = [] := List.length_eq_zero_iff.1 h1
+    have : ls1 = [] := List.length_eq_zero_iff.1 h2
+    subst_vars; simp [decodeAux]
+  | cons m ms ih =>
+    intro ss1 ls1 ms2 ss2 ls2 h1 h2
+    cases ss1 with
+    | nil => simp at h1
+    | cons s ss =>
+      cases ls1 with
+      | nil => simp at h2
+      | cons l ls =>
+        simp only [List.cons_append, decodeAux, List.head?_cons, List.headD_cons, List.tail_cons]
+        rw [ih ss ls ms2 ss2 ls2 (by simpa using h1) (by simpa using h2)]
+
+/-- a message whose three arrays have the same length -/
+def Square (m : Msg) : Prop := m.stats.length = m.regions.length ∧ m.leaders.length = m.regions.length
+
+theorem decode_square (m : Msg) (h : Square m) : decode m = decodeAux true m.regions m.stats m.leaders := by
+  unfold decode; simp [h.1]
+
+theorem flatMap_square (ms : List Msg) (h : ∀ m ∈ ms, Square m) :
+    (ms.flatMap (·.stats)).length = (ms.flatMap (·.regions)).length ∧
+    (ms.flatMap (·.leaders)).length = (ms.flatMap (·.regions)).length := by
+  induction ms with
+  | nil => simp
+  | cons m ms ih =>
+    have := ih (fun x hx => h x (by simp [hx]))
+    have hm := h m (by simp)
+    unfold Square at hm
+    simp only [List.flatMap_cons, List.length_append]
+    omega
+
+theorem decodeAux_flatMap (ms : List Msg) (h : ∀ m ∈ ms, Square m) :
+    decodeAux true (ms.flatMap (·.regions)) (ms.flatMap (·.stats)) (ms.flatMap (·.leaders)) = ms.flatMap decode := by
+  induction ms with
+  | nil => rfl
+  | cons m ms ih =>
+    have hm := h m (by simp)
+    simp only [List.flatMap_cons]
+    rw [decodeAux_append true m.regions m.stats m.leaders _ _ _ hm.1 hm.2, ih (fun x hx => h x (by simp [hx])),
+      decode_square m hm]
+
+
 end PdModel.Syncer
